@@ -37,6 +37,9 @@ void Encoder::setMessageType(const Packet& packet){
 
 std::vector<std::vector<uint8_t>> Encoder::getEncodedData()
 {
+    if (cmpFrames.empty())
+        return {};
+
     cmpFrames.back().resize(std::max(cmpFrames.back().size() - bytesLeft, minBytesPerMessage), 0);
     auto frames = std::move(cmpFrames);
     clearEncodingMetadata(false);
